@@ -80,3 +80,22 @@ impl ConditionallySelectable {
     #[verifier::external_body]
     pub fn conditional_select(a: &Scalar, b: &Scalar, c: Choice) -> (r: Scalar) ensures r == (if c@ { *b } else { *a }) { unimplemented!() }
 }
+
+// ----- SHA-256 (sha2::Sha256 with the Digest / FixedOutput traits) [H-HASH] -------------------------
+#[verifier::external_body]
+pub struct Sha256 { _p: [u8; 0] }
+impl Sha256 {
+    pub uninterp spec fn absorbed(&self) -> Seq<u8>;
+    #[verifier::external_body]
+    pub fn default() -> (h: Sha256) ensures h.absorbed() == Seq::<u8>::empty() { unimplemented!() }
+    #[verifier::external_body]
+    pub fn update(hasher: &mut Sha256, data: &[u8]) ensures final(hasher).absorbed() == old(hasher).absorbed() + data@ { unimplemented!() }
+    /// the 32-byte digest (a GenericArray in the real crate; modelled as [u8; 32])
+    #[verifier::external_body]
+    pub fn finalize_fixed(self) -> (o: [u8; 32]) ensures o@ == sha256(self.absorbed()) { unimplemented!() }
+    #[verifier::external_body]
+    pub fn digest<B: AsRefBytes>(data: B) -> (o: [u8; 32]) ensures o@ == sha256(data.bytes()) { unimplemented!() }
+}
+/// E3d: `a.iter().copied().chain(b.iter().copied()).collect::<Vec<u8>>()`
+#[verifier::external_body]
+pub fn concat_bytes<A: AsRefBytes, B: AsRefBytes>(a: A, b: B) -> (r: Vec<u8>) ensures r@ == a.bytes() + b.bytes() { unimplemented!() }
